@@ -505,8 +505,53 @@ def classify_typed_equality(v, mod, sym):
     return None
 
 
+def r8_program_identity(ctx, sym):
+    ctx.rule('R8', "the tree the ensure_*/prevent_* checks walk is the tree of the code asked for: reparse_if_needed "
+                   "(decision table by abstract interpretation over call sequences with and without explicit "
+                   "student_code, cached or not) leaves cait['ast'] bound to the parse of the requested code")
+    mod = ctx.repo.module('pedal.cait.cait_api')
+    fn = mod.func('reparse_if_needed')
+    ctx.analysed_function(mod, fn)
+    tool = sym.const(mod, ast.parse('TOOL_NAME', mode='eval').body)
+    src_tool = sym.const(mod, ast.parse('SOURCE_TOOL_NAME', mode='eval').body)
+    from ..fdeval import Raised
+    sequences = [[None], [None, None], ['OTHER', None], [None, 'OTHER', None], ['OTHER', 'OTHER', None, 'THIRD', None],
+                 ['OTHER']]
+    for source_ok in (True, False):
+        for seq in sequences:
+            cait = {'cache': {}, 'ast': None, 'success': True, 'error': None}
+            source = {'success': source_ok, 'ast': ('source-ast', 'MAIN')}
+            report = Obj('report', submission=Obj('submission', main_code='MAIN'))
+            report.attrs['method:__getitem__'] = lambda k: {tool: cait, src_tool: source}[k]
+            for i, code in enumerate(seq):
+                fd = FD()
+                fd.resolver = lambda n: {'TOOL_NAME': tool, 'SOURCE_TOOL_NAME': src_tool}[n]
+                fd.calls['_parse_source'] = lambda c, report=None: ('parsed', c)
+                fd.calls['CaitNode'] = lambda a, report=None: ('cait', a)
+                try:
+                    got = fd.call_function(fn, [], {'student_code': code, 'report': report})
+                except (Raised, Inconclusive) as e:
+                    raise AnalysisError("C08 R8: reparse_if_needed outside the decidable fragment: %s" % e)
+                want_code = code if code is not None else 'MAIN'
+                tree = cait['ast']
+                ok = got is cait and isinstance(tree, tuple) and tree[0] == 'cait' and tree[1][1] == want_code
+                key = 'reparse_if_needed[%s,source_ok=%s]@%d' % (','.join(str(c) for c in seq), source_ok, i)
+                ctx.check(ok, 'R8', key, mod, fn,
+                          "after the calls %s the tree handed to the static checks is %r, not the parse of %r" % (
+                              seq[:i + 1], tree, want_code),
+                          "find_asts('For', student_code=REFERENCE) followed by ensure_ast('While') on the submission: "
+                          "the check counts nodes of the reference solution", construct='reparse_if_needed')
+                if not ok:
+                    break
+    pp = mod.func('parse_program')
+    ok = any(call_name(c) == 'reparse_if_needed' for c in calls(pp))
+    ctx.check(ok, 'R8', 'parse_program:uses-reparse', mod, pp, "parse_program no longer goes through reparse_if_needed",
+              "static checks see a stale tree")
+
+
 def run(ctx):
     sym = Symbols(ctx.repo)
+    r8_program_identity(ctx, sym)
     tables = r1_symbol_tables(ctx, sym)
     r2_name_plumbing(ctx, sym)
     r3_finder(ctx, sym, tables)
